@@ -110,19 +110,28 @@ theorem reachable_tree_wellformed (kw : List String) (ops : List Op) :
 
 /-! Non-vacuity: a cyclic base edit, an edit leaving a sub space without linearisation (C3 is not
 monotone under removal of a base) and an invalid name are refused; the state is what it was. -/
-def chainOps : List Op := [.newSpace [] "A" [], .newSpace [] "B" [["A"]], .newCells ["A"] "f" 1]
+def chainOps : List Op := [.newSpace [] "A" [] [], .newSpace [] "B" [["A"]] [], .newCells ["A"] "f" "f" 1]
 
 example : ((St.run pythonKeywords {} chainOps).step pythonKeywords (.addBases ["A"] [["B"]])).2 = false := by decide
-example : ((St.run pythonKeywords {} chainOps).step pythonKeywords (.newCells ["A"] "for" 1)).2 = false := by decide
-example : ((St.run pythonKeywords {} chainOps).step pythonKeywords (.newSpace [] "_x" [])).2 = false := by decide
+/-- a cells cannot be given an invalid name: `new_cells(name="for")` does not raise, the cells is named after
+its formula if that gives a valid name, else automatically (`Cells1`, ...), and is derived under that name -/
+example : (St.run pythonKeywords {} (chainOps ++ [.newCells ["A"] "for" "for" 1])).mem .cells ["A"] "for" = none := by decide
+example : (St.run pythonKeywords {} (chainOps ++ [.newCells ["A"] "for" "for" 1])).mem .cells ["B"] "Cells1"
+    = some { derived := true, payload := 1 } := by decide
+example : (St.run pythonKeywords {} (chainOps ++ [.newCells ["A"] "_x" "g" 1])).mem .cells ["A"] "g"
+    = some { derived := false, payload := 1 } := by decide
+example : (St.run pythonKeywords {} (chainOps ++ [.setRef ["B"] "Cells1" 0, .newCells ["A"] "" "<lambda>" 1,
+    .newCells ["A"] "" "" 2])).cont .cells ["A"]
+    = [("f", ⟨false, 1⟩), ("Cells2", ⟨false, 1⟩), ("Cells3", ⟨false, 2⟩)] := by decide
+example : ((St.run pythonKeywords {} chainOps).step pythonKeywords (.newSpace [] "_x" [] [])).2 = false := by decide
 example : ((St.run pythonKeywords {} chainOps).step pythonKeywords (.addBases ["B"] [["A"]])).2 = true := by decide
 example : (St.run pythonKeywords {} chainOps).mro ["B"] = some [["B"], ["A"]] := by decide
 
 /-- the history behind repair 75ec125: deleting the space `X` would leave `E` without a linearisation -/
 def nonMonotoneOps : List Op := [
-  .newSpace [] "X" [], .newSpace [] "Y" [], .newSpace [] "C" [],
-  .newSpace [] "B1" [["X"], ["Y"]], .newSpace [] "B2" [["C"], ["X"]],
-  .newSpace [] "D" [["B1"], ["B2"]], .newSpace [] "F" [["C"], ["Y"]], .newSpace [] "E" [["D"], ["F"]]]
+  .newSpace [] "X" [] [], .newSpace [] "Y" [] [], .newSpace [] "C" [] [],
+  .newSpace [] "B1" [["X"], ["Y"]] [], .newSpace [] "B2" [["C"], ["X"]] [],
+  .newSpace [] "D" [["B1"], ["B2"]] [], .newSpace [] "F" [["C"], ["Y"]] [], .newSpace [] "E" [["D"], ["F"]] []]
 
 example : ((St.run [] {} nonMonotoneOps).step [] (.delSpace ["X"])).2 = false := by decide
 example : ((St.run [] {} nonMonotoneOps).step [] (.removeBases ["B1"] [["X"]])).2 = false := by decide
